@@ -77,7 +77,7 @@ class LocalDirectoryContext(Context):
 
     def _init_log(self):
         log_path = self._log_path
-        if not log_path.is_file():
+        if not log_path.is_file() or log_path.stat().st_size == 0:
             with open(log_path, 'w') as fh:
                 fh.write("path,time,severity,message\n")
 
